@@ -26,6 +26,12 @@ Theorem rpc_own_response :
 Proof. exact own_response_all. Qed.
 Print Assumptions rpc_own_response.
 
+Theorem rpc_auto_tag_fresh :
+  forall calls script es s,
+    run_events (init true calls script) es = Some s -> map_find (s_mtag s + 1)%Z (s_map s) = None.
+Proof. exact auto_tag_fresh_all. Qed.
+Print Assumptions rpc_auto_tag_fresh.
+
 Theorem rpc_request_tag :
   forall calls script es s,
     run_events (init true calls script) es = Some s ->
